@@ -21,10 +21,7 @@ try:
     os.remove(junit)
 finally:
     sh(f'git -C /repo worktree remove --force {wt}')
-p = f'/verif/seeded/{name}/meta.json'
-m = json.load(open(p))
-m['tests_ok'] = not missing
-m['tests_missing_from_pass_set'] = missing
-m['tests_passed'] = len(passed)
-json.dump(m, open(p, 'w'), indent=1)
+# written next to meta.json (merged into it by tools/seed_merge.py) so that a concurrent seed_eval cannot lose the result
+json.dump(dict(tests_ok=not missing, tests_missing_from_pass_set=missing, tests_passed=len(passed)),
+          open(f'/verif/seeded/{name}/tests.json', 'w'), indent=1)
 print(name, 'tests_ok', not missing, len(passed), missing[:3])
